@@ -302,7 +302,6 @@ func genIntFor(r *lib.RNG, lo, hi *big.Int, tgt *intType) *big.Int {
 	return new(big.Int).Set(hi)
 }
 
-
 var decShapes = [][2]int{{5, 0}, {10, 2}, {20, 5}, {38, 10}, {65, 30}, {18, 9}, {30, 28}, {1, 0}, {3, 3}}
 
 var strAlphabet = []string{"a", "b", "B", "Z", "0", " ", "é", "ß", "日", "😀", "_", "\x00", "~"}
@@ -333,19 +332,74 @@ func gen(r *lib.RNG) caseT {
 	var c caseT
 	var tgt *intType
 	kind := "num"
-	switch r.Intn(10) {
-	case 0:
+	switch r.Intn(16) {
+	case 0, 1:
 		c.Type = lib.Pick(r, []string{"varchar", "varbinary"})
 		kind = "str"
-	case 1, 2, 3:
+	case 2, 3, 4:
 		ds := lib.Pick(r, decShapes)
 		c.Type = fmt.Sprintf("%s(%d,%d)", lib.Pick(r, []string{"decimal", "coldecimal"}), ds[0], ds[1])
+	case 5, 6, 7, 8: // temporal types, every precision, the full 1000..9999 range
+		tk := lib.Pick(r, []string{"date", "datetime", "datetime", "timestamp", "year", "time"})
+		p := r.Intn(7)
+		c.Type = tk
+		if tk == "datetime" || tk == "timestamp" {
+			c.Type = fmt.Sprintf("%s(%d)", tk, p)
+		}
+		for i := range c.V {
+			c.V[i] = genTemporalVal(r, tk, p)
+		}
+		if r.Chance(1, 4) {
+			c.V[r.Intn(3)] = c.V[r.Intn(3)]
+		}
+		if r.Chance(1, 5) && c.V[0].Src != "null" && (tk == "date" || tk == "datetime" || tk == "timestamp") {
+			// the same instant as time.Time and as text, and a neighbour one microsecond / one day away
+			cv := parseCivil(c.V[0].Text)
+			if cv.Y >= 1971 && cv.Y <= 2037 || tk != "timestamp" && cv.Y >= 1000 && cv.Y <= 9998 {
+				c.V[1] = valSpec{Src: lib.Pick(r, []string{"time", "text"}), Text: c.V[0].Text}
+			}
+		}
+		return c
+	case 9: // DOUBLE on integers beyond 2^53 (implementation-side laws only)
+		c.Type = "f64"
+		for i := range c.V {
+			k := lib.Pick(r, []string{"int64", "uint64"})
+			base := lib.Pick(r, []string{"9007199254740992", "9007199254740993", "9007199254740994", "9223372036854775807", "9223372036854775806", "4611686018427387905", "1", "0"})
+			z := bi(base)
+			if k == "int64" && r.Bool() {
+				z = new(big.Int).Neg(z)
+			}
+			c.V[i] = valSpec{Src: k, Text: z.String()}
+			if r.Chance(1, 10) {
+				c.V[i] = valSpec{Src: "null"}
+			}
+		}
+		return c
 	default:
 		tgt = &intTypes[r.Intn(len(intTypes))]
 		c.Type = tgt.Name
 	}
 	for i := range c.V {
 		c.V[i] = genVal(r, kind, tgt)
+	}
+	if tgt != nil && tgt.Min.Sign() == 0 && r.Chance(1, 3) {
+		// unsigned type: negative Go int64 operands together with uint64 operands beyond 2^63 (mixed representations)
+		neg := func() valSpec {
+			return valSpec{Src: lib.Pick(r, []string{"int64", "int64", "int32", "int8", "int"}), Text: lib.Pick(r, []string{"-1", "-2", "-5", "-128", "-100"})}
+		}
+		small := func() valSpec {
+			return valSpec{Src: lib.Pick(r, []string{"int64", "uint64", "int64", "uint8"}), Text: fmt.Sprint(r.Intn(200))}
+		}
+		big := func() valSpec {
+			return valSpec{Src: "uint64", Text: lib.Pick(r, []string{"18446744073709551615", "9223372036854775808", "9223372036854775813", "18446744073709551610"})}
+		}
+		pool := []func() valSpec{neg, neg, small, big}
+		for i := range c.V {
+			c.V[i] = lib.Pick(r, pool)()
+		}
+		if c.V[0].Text[0] != '-' && c.V[1].Text[0] != '-' {
+			c.V[r.Intn(3)] = valSpec{Src: "int64", Text: "-1"}
+		}
 	}
 	if r.Chance(1, 4) { // duplicates exercise the equality cases of the laws
 		c.V[r.Intn(3)] = c.V[r.Intn(3)]
@@ -366,9 +420,23 @@ func parseType(t string) (typ sql.Type, coq string, kind string) {
 		fmt.Sscanf(t, "decimal(%d,%d)", &p, &s)
 		return types.MustCreateDecimalType(uint8(p), uint8(s)), fmt.Sprintf("(CDec %d%%Z false)", s), "dec"
 	case t == "varchar":
-		return types.MustCreateString(sqltypes.VarChar, 20, sql.Collation_utf8mb4_bin), "", "str"
+		return types.MustCreateString(sqltypes.VarChar, 20, sql.Collation_utf8mb4_bin), "CBin", "str"
 	case t == "varbinary":
-		return types.MustCreateBinary(sqltypes.VarBinary, 40), "", "str"
+		return types.MustCreateBinary(sqltypes.VarBinary, 40), "CBin", "str"
+	case t == "f64":
+		return types.Float64, "", "flt"
+	case t == "date":
+		return types.Date, "CDate", "date"
+	case t == "year":
+		return types.Year, "CYear", "year"
+	case t == "time":
+		return types.Time, "CTime", "time"
+	case strings.HasPrefix(t, "datetime("):
+		fmt.Sscanf(t, "datetime(%d)", &p)
+		return types.MustCreateDatetimeType(sqltypes.Datetime, int(p)), fmt.Sprintf("(CDatetime %d%%Z)", p), "datetime"
+	case strings.HasPrefix(t, "timestamp("):
+		fmt.Sscanf(t, "timestamp(%d)", &p)
+		return types.MustCreateDatetimeType(sqltypes.Timestamp, int(p)), fmt.Sprintf("(CTimestamp %d%%Z)", p), "timestamp"
 	}
 	panic("type " + t)
 }
@@ -383,15 +451,38 @@ func goVal(v valSpec) interface{} {
 			panic(err)
 		}
 		return d
-	case "string":
+	case "string", "text", "yearstr":
 		return v.Text
+	case "time":
+		return parseCivil(v.Text).goTime()
+	case "yearint":
+		return bi(v.Text).Int64()
+	case "span":
+		return types.Timespan(bi(v.Text).Int64())
 	}
 	return goValue(v.Src, bi(v.Text))
 }
 
 func coqVal(v valSpec) string {
-	if v.Src == "null" {
+	switch v.Src {
+	case "null":
 		return "CNull"
+	case "time":
+		return parseCivil(v.Text).coq("TTime")
+	case "text":
+		return parseCivil(v.Text).coq("TText")
+	case "yearint":
+		return "(CX (TYearI " + lib.CoqZStr(v.Text) + "))"
+	case "yearstr":
+		return "(CX (TYearS " + lib.CoqZStr(bi(v.Text).String()) + "))"
+	case "span":
+		return "(CX (TSpan " + lib.CoqZStr(v.Text) + "))"
+	case "string":
+		bs := make([]string, len(v.Text))
+		for i := 0; i < len(v.Text); i++ {
+			bs[i] = fmt.Sprintf("%d%%Z", v.Text[i])
+		}
+		return "(CX (TStr " + lib.CoqList(bs) + "))"
 	}
 	return "(CV " + observe(goVal(v)).coq() + ")"
 }
@@ -417,7 +508,7 @@ func run(c *lib.Ctx, cs caseT) {
 	desc := fmt.Sprintf("%s.Compare on a=%s:%q b=%s:%q c=%s:%q", cs.Type, cs.V[0].Src, cs.V[0].Text, cs.V[1].Src, cs.V[1].Text, cs.V[2].Src, cs.V[2].Text)
 	key := cs.Type + "|" + fmt.Sprint(cs.V)
 	var id int
-	if kind == "str" || pn || cmpErr != nil {
+	if kind == "flt" || pn || cmpErr != nil {
 		id = c.CaseNoModel(cs, key)
 	} else {
 		zs := make([]string, 9)
@@ -478,6 +569,41 @@ func run(c *lib.Ctx, cs caseT) {
 			break
 		}
 	}
+	// temporal types: the order is the chronological order of the operands' instants (own calendar arithmetic);
+	// binary collations: byte order
+	switch kind {
+	case "date", "datetime", "timestamp", "year", "time":
+		var prec int
+		fmt.Sscanf(cs.Type[strings.Index(cs.Type+"(", "("):], "(%d)", &prec)
+		for i, p := range pairs[:6] {
+			x, y := cs.V[p[0]], cs.V[p[1]]
+			if x.Src == "null" || y.Src == "null" {
+				continue
+			}
+			kx, ky := temporalKey(kind, prec, x), temporalKey(kind, prec, y)
+			want := 0
+			if kx < ky {
+				want = -1
+			} else if kx > ky {
+				want = 1
+			}
+			if res[i] != want {
+				fail("compare/"+kind+"/not-chronological", fmt.Sprintf("Compare(%s %q, %s %q) = %d, chronological order says %d", x.Src, x.Text, y.Src, y.Text, res[i], want))
+				break
+			}
+		}
+	case "str":
+		for i, p := range pairs[:6] {
+			x, y := cs.V[p[0]], cs.V[p[1]]
+			if x.Src == "null" || y.Src == "null" {
+				continue
+			}
+			if want := strings.Compare(x.Text, y.Text); res[i] != want {
+				fail("compare/str/not-byte-order", fmt.Sprintf("Compare(%q, %q) = %d, byte order says %d", x.Text, y.Text, res[i], want))
+				break
+			}
+		}
+	}
 	// the result equals comparing the values after converting them to the type
 	var conv [3]interface{}
 	okc := true
@@ -487,7 +613,8 @@ func run(c *lib.Ctx, cs caseT) {
 			continue
 		}
 		o, f, err := typ.Convert(context.Background(), v)
-		if err != nil || f != sql.InRange {
+		// for BIGINT / BIGINT UNSIGNED the conversion IS the key Compare uses, so the flagged value counts too
+		if err != nil || (f != sql.InRange && cs.Type != "i64" && cs.Type != "u64") {
 			okc = false
 			break
 		}
@@ -527,6 +654,17 @@ func run(c *lib.Ctx, cs caseT) {
 				}
 				if it := intTypeByName(cs.Type); it != nil && it.Min.Sign() == 0 && (isNegFrac(vals[p[0]]) || isNegFrac(vals[p[1]])) {
 					shape = "unsigned-int/negative-fraction"
+				} else if kind == "datetime" || kind == "timestamp" {
+					shape = kind
+					for _, k := range p {
+						if cs.V[k].Src == "time" {
+							var prec int
+							fmt.Sscanf(cs.Type[strings.Index(cs.Type, "("):], "(%d)", &prec)
+							if us := int64(parseCivil(cs.V[k].Text).Us); roundMicros(us, prec) != us {
+								shape = "temporal/subprecision-time-value"
+							}
+						}
+					}
 				} else if strings.HasPrefix(cs.Type, "decimal(") {
 					shape = "noncolumn-decimal"
 				} else if strings.HasPrefix(cs.Type, "coldecimal(") {
@@ -569,6 +707,18 @@ func main() {
 			{"coldecimal(10,2)", [3]valSpec{v("decimal", "1.001"), v("decimal", "1.002"), v("decimal", "1.005")}},
 			{"decimal(10,2)", [3]valSpec{v("decimal", "1.001"), v("decimal", "1.002"), v("decimal", "1.00")}},
 			{"coldecimal(5,0)", [3]valSpec{v("int64", "1"), v("decimal", "1.0"), null}},
+			{"u64", [3]valSpec{v("int64", "-1"), v("int64", "5"), v("uint64", "9223372036854775813")}},
+			{"u64", [3]valSpec{v("int64", "-1"), v("int64", "-2"), v("int64", "5")}},
+			{"u8", [3]valSpec{v("int64", "-1"), v("int64", "5"), v("uint64", "18446744073709551615")}},
+			{"u32", [3]valSpec{v("int32", "-5"), v("uint64", "9223372036854775808"), v("int64", "7")}},
+			{"f64", [3]valSpec{v("int64", "9007199254740993"), v("int64", "9007199254740992"), v("uint64", "9007199254740994")}},
+			{"datetime(0)", [3]valSpec{v("time", "1500-06-15 00:00:00.000000"), v("time", "2000-01-01 00:00:00.000000"), v("time", "9999-12-31 23:59:59.000000")}},
+			{"date", [3]valSpec{v("time", "1500-06-15 00:00:00.000000"), v("text", "2000-01-01 00:00:00.000000"), v("time", "9999-12-31 00:00:00.000000")}},
+			{"datetime(6)", [3]valSpec{v("time", "1677-09-21 00:12:43.145224"), v("time", "2262-04-11 23:47:16.854775"), v("text", "1000-01-01 00:00:00.000000")}},
+			{"timestamp(6)", [3]valSpec{v("time", "1500-06-15 10:00:00.000000"), v("text", "2000-01-01 00:00:00.500000"), v("time", "2300-01-01 00:00:00.000000")}},
+			{"datetime(0)", [3]valSpec{v("time", "2023-01-15 10:00:00.400000"), v("time", "2023-01-15 10:00:00.300000"), v("text", "2023-01-15 10:00:00.500000")}},
+			{"year", [3]valSpec{v("yearint", "69"), v("yearstr", "70"), v("yearstr", "0")}},
+			{"time", [3]valSpec{v("span", "-1"), v("span", "3020399000000"), v("span", "0")}},
 			{"varchar", [3]valSpec{v("string", "a"), v("string", "ab"), v("string", "B")}},
 			{"varbinary", [3]valSpec{v("string", "é"), v("string", "z"), null}},
 		}
